@@ -18,7 +18,7 @@ class Relationship(_RelationshipObject):
     `the STIX 2.1 specification <https://docs.oasis-open.org/cti/stix/v2.1/os/stix-v2.1-os.html#_e2e1szrqfoan>`__.
     """
 
-    _invalid_source_target_types = ['bundle', 'language-content', 'marking-definition', 'relationship', 'sighting']
+    _invalid_source_target_types = ['bundle', 'extension-definition', 'language-content', 'marking-definition', 'relationship', 'sighting']
 
     _type = 'relationship'
     _properties = OrderedDict([
